@@ -1,6 +1,7 @@
 from numpy import array, arange, ndarray, append, maximum
 from scipy.optimize import differential_evolution, fmin_l_bfgs_b
 from multiprocessing import Pool
+from copy import deepcopy
 from inspect import isclass
 from collections.abc import Sequence
 import matplotlib.pyplot as plt
@@ -123,7 +124,9 @@ class GpOptimiser:
         )
 
         # if the class has been passed instead of an instance, create an instance
-        self.acquisition = acquisition() if isclass(acquisition) else acquisition
+        # an instance is copied: it holds this optimiser's model and incumbent, and
+        # must not be shared with another optimiser given the same object
+        self.acquisition = acquisition() if isclass(acquisition) else deepcopy(acquisition)
         self.acquisition.update_gp(self.gp)
 
         # create storage for tracking
